@@ -452,6 +452,50 @@ Fixpoint rrun (names : nat -> name) (s : rstate) (es : list revent) : option rst
   | e :: es' => match rstep names s e with Some s' => rrun names s' es' | None => None end
   end.
 
+(* A tempting optimisation of NewLogger that is NOT what the tree does: look the name up under
+   the READ lock; on a miss take the write lock and create + store WITHOUT looking again.
+   (FPeek needs the write lock to be free; readers do not exclude each other.) *)
+Inductive fpc := FIdle | FWant | FLocked | FDone (l : logger).
+
+Record fstate := mkF {
+  f_lock : bool; f_map : list (name * logger); f_next : logger; f_pc : nat -> fpc
+}.
+
+Inductive fevent := FPeek (t : nat) | FAcq (t : nat) | FStore (t : nat).
+
+Definition fstep (names : nat -> name) (s : fstate) (e : fevent) : option fstate :=
+  match e with
+  | FPeek t =>
+      match f_pc s t with
+      | FIdle => if f_lock s then None
+                 else match lookup (names t) (f_map s) with
+                      | Some l => Some (mkF false (f_map s) (f_next s) (upd (f_pc s) t (FDone l)))
+                      | None => Some (mkF false (f_map s) (f_next s) (upd (f_pc s) t FWant))
+                      end
+      | _ => None
+      end
+  | FAcq t =>
+      match f_pc s t with
+      | FWant => if f_lock s then None
+                 else Some (mkF true (f_map s) (f_next s) (upd (f_pc s) t FLocked))
+      | _ => None
+      end
+  | FStore t =>      (* logger = newDaprLogger(name); globalLoggers[name] = logger; Unlock *)
+      match f_pc s t with
+      | FLocked => Some (mkF false ((names t, f_next s) :: f_map s) (S (f_next s))
+                             (upd (f_pc s) t (FDone (f_next s))))
+      | _ => None
+      end
+  end.
+
+Fixpoint frun (names : nat -> name) (s : fstate) (es : list fevent) : option fstate :=
+  match es with
+  | [] => Some s
+  | e :: es' => match fstep names s e with Some s' => frun names s' es' | None => None end
+  end.
+
+Definition finit : fstate := mkF false [] 0 (fun _ => FIdle).
+
 (* ---------------------------------------------------------------------------------------- *)
 (* (3) byteslicepool: a slice is (buffer, len, cap); the pool stores slice headers.          *)
 
